@@ -74,6 +74,7 @@ type family struct {
 	csvOrder []string
 	csvCols  csv.ToConfigFunc
 	gbCols   groupby.ConfigFunc
+	aggs     []qframe.Aggregation
 	inInts   []int
 	inStrs   []string
 	clauses  []qframe.FilterClause
@@ -165,6 +166,7 @@ func TestC11(t *testing.T) {
 			f.csvOrder = []string{"i1", "id", "s1", "f1", "e1"}
 			f.csvCols = csv.Columns(f.csvOrder)
 			f.gbCols = groupby.Columns("i1", "e1", "i1")
+			f.aggs = []qframe.Aggregation{{Fn: "sum", Column: "i1"}, {Fn: "max", Column: "f1"}}
 			f.inInts = []int{7, -3, 64, 2, 0, 5, -1, 3, 1000, 1, -2, 8, 4, 3, -1000, 6}
 			f.inStrs = []string{"b", "ab", "a", "", "abc", "B", "zz", "A", "c", "ba", "aB", "b%", "Ab", "a b", "x"}
 			for _, c := range sharedClauses {
@@ -196,7 +198,22 @@ func TestC11(t *testing.T) {
 				mi = 4 // more weight on the member that was itself made by adding a column (its column slice has a history)
 			}
 			tab, mn := tabs[mi], c11Names[mi]
-			switch rapid.IntRange(0, 22).Draw(t, "op") {
+			switch rapid.IntRange(0, 23).Draw(t, "op") {
+			case 23:
+				// one []Aggregation value (without As names) handed to several Aggregate calls
+				key := rapid.SampledFrom([]string{"e1", "b1", "s1"}).Draw(t, "aggskey")
+				onShared := rapid.Bool().Draw(t, "aggsshared")
+				makers[i] = opMaker{desc: fmt.Sprintf("%s.GroupBy(%s).Aggregate(shared aggregation slice) sharedGrouper=%v", mn, key, onShared), scratch: true, mk: func(f family) func() string {
+					return func() string {
+						var r qframe.QFrame
+						if onShared {
+							r = f.grouper.Aggregate(f.aggs...)
+						} else {
+							r = f.members[mi].GroupBy(groupby.Columns(key)).Aggregate(f.aggs...)
+						}
+						return multiset(r) + fmt.Sprintf("%q %q", f.aggs[0].As, f.aggs[1].As)
+					}
+				}}
 			case 22:
 				// one []int / []string value list shared by several in-filters
 				str := rapid.Bool().Draw(t, "inliststr")
